@@ -37,22 +37,6 @@ def DiffErr.name : DiffErr → String
 def DiffErr.ofA : AErr → DiffErr
   | .einval => .einval | .eint => .eint
 
-/-- the node's own `yang:operation` -/
-def ownOp (n : DNode) : Option Op := (getMeta n "operation").bind Op.ofBytes
-
-/-- `lyd_diff_get_op`: own operation, else the one inherited from the ancestors -/
-def effOp (inh : Option Op) (n : DNode) : Option Op :=
-  match ownOp n with
-  | some o => some o
-  | none => inh
-
-/-- what the children of `n` inherit (`lyd_diff_get_op` skips a parent's `replace`) -/
-def childInh (inh : Option Op) (n : DNode) : Option Op :=
-  match ownOp n with
-  | some .replace => inh
-  | some o => some o
-  | none => inh
-
 /-- `lyd_change_meta`: new value of the first metadata instance with that name, in place -/
 def setMetaVal (name : String) (v : Bytes) : List Meta → List Meta
   | [] => []
@@ -148,7 +132,7 @@ mutual
 def revNode (S : Schema) (inh : Option Op) : DNode → Except DiffErr DNode
   | .inner s f m ks =>
     if S.isKey s then .ok (.inner s f m ks) else
-    match effOp inh (.inner s f m ks) with
+    match effOp (.inner s f m ks) inh with
     | none => .error .eint
     | some .create => .ok ((changeOp (.inner s f m ks) .delete).setKids (ks.map fun k => (removeOp .create k).1))
     | some .delete => .ok ((changeOp (.inner s f m ks) .create).setKids (ks.map fun k => (removeOp .delete k).1))
@@ -156,16 +140,16 @@ def revNode (S : Schema) (inh : Option Op) : DNode → Except DiffErr DNode
       match revReplace S (.inner s f m ks) with
       | .error e => .error e
       | .ok n1 =>
-        match revL S (childInh inh (.inner s f m ks)) ks with
+        match revL S (childInhOf (.inner s f m ks) inh) ks with
         | .error e => .error e
         | .ok ks' => .ok (n1.setKids ks')
     | some .none =>
-      match revL S (childInh inh (.inner s f m ks)) ks with
+      match revL S (childInhOf (.inner s f m ks) inh) ks with
       | .error e => .error e
       | .ok ks' => .ok (.inner s f m ks')
   | .term s f m v =>
     if S.isKey s then .ok (.term s f m v) else
-    match effOp inh (.term s f m v) with
+    match effOp (.term s f m v) inh with
     | none => .error .eint
     | some .create => .ok (changeOp (.term s f m v) .delete)
     | some .delete => .ok (changeOp (.term s f m v) .create)
